@@ -201,11 +201,23 @@ func (c *Ctx) c05Merges(n int) {
 	}
 }
 
+// several sheet-scoped defined names in a row on one sheet (and on its neighbours), then that sheet deleted
+var c05NameHistories = [][]wop{
+	{{K: "N", A: "S2"}, {K: "N", A: "Q3"}, {K: "DN", A: "Q3"}, {K: "DN", A: "Q3"}, {K: "D", A: "Q3"}},
+	{{K: "N", A: "S2"}, {K: "N", A: "Q3"}, {K: "DN", A: "S2"}, {K: "DN", A: "S2"}, {K: "DN", A: "S2"}, {K: "D", A: "S2"}},
+	{{K: "N", A: "S2"}, {K: "N", A: "Q3"}, {K: "DN", A: "Sheet1"}, {K: "DN", A: "S2"}, {K: "DN", A: "S2"}, {K: "DN", A: "Q3"}, {K: "DN", A: "Q3"}, {K: "D", A: "S2"}},
+	{{K: "N", A: "S2"}, {K: "N", A: "Q3"}, {K: "DN", A: "Q3"}, {K: "DN", A: "S2"}, {K: "DN", A: "S2"}, {K: "DN", A: "Workbook"}, {K: "DN", A: "Sheet1"}, {K: "DN", A: "Sheet1"}, {K: "D", A: "Sheet1"}, {K: "D", A: "S2"}},
+}
+
 func (c *Ctx) c05WorkbookHistories(n int) {
-	for i := 0; i < n; i++ {
+	for i := 0; i < n+len(c05NameHistories); i++ {
 		var ops []wop
-		for j := 0; j < 3+c.Rng.Intn(12); j++ {
-			ops = append(ops, c.c16Op(3, true))
+		if i < len(c05NameHistories) {
+			ops = c05NameHistories[i]
+		} else {
+			for j := 0; j < 3+c.Rng.Intn(12); j++ {
+				ops = append(ops, c.c16Op(3, true))
+			}
 		}
 		c.guard("C05_no_panic", ops, func() {
 			st := &c16state{f: excelize.NewFile(), scoped: map[string]int{}}
